@@ -61,4 +61,18 @@ Proof. intros HI. pose proof (inv_of_hermitian n _ Minv (gram_hermitian m n A) H
     unfold mmul at 1. rewrite (sum_ext n _ (fun l => mmul n A Minv i l * cj A l j)) by (intros l Hl; rewrite E by auto; reflexivity).
     change (sum n (fun l => mmul n A Minv i l * cj A l j)) with (mmul n (mmul n A Minv) (cj A) i j). apply mmul_assoc.
   - intros i j Hi Hj. unfold cj. rewrite (XA j i Hj Hi), (XA i j Hi Hj). unfold eye. rewrite conj_delta. apply delta_sym. Qed.
+(* the repaired CG rule has no jitter term (eps = 0): it IS Minv A^H, hence the Moore-Penrose inverse for full column rank *)
+Lemma pinv_cg_no_jitter m n (A Minv : fm) : feq n m (pinv_cg m n A Minv r0) (mmul n Minv (cj A)).
+Proof. eapply feq_trans; [apply pinv_cg_form|]. intros i j Hi Hj. ring. Qed.
+Lemma penrose_ext m n (A X X' : fm) : feq n m X X' -> Penrose m n A X -> Penrose m n A X'.
+Proof. intros HX (P1 & P2 & P3 & P4). assert (HS := feq_sym _ _ _ _ HX).
+  assert (AX : feq m m (mmul n A X') (mmul n A X)) by (apply mmul_ext; [apply feq_refl|exact HS]).
+  assert (XA : feq n n (mmul m X' A) (mmul m X A)) by (apply mmul_ext; [exact HS|apply feq_refl]).
+  repeat split.
+  - eapply feq_trans; [apply mmul_ext; [exact AX|apply feq_refl]|exact P1].
+  - eapply feq_trans; [apply mmul_ext; [exact XA|exact HS]|]. eapply feq_trans; [exact P2|exact HX].
+  - eapply feq_trans; [apply feq_cj; exact AX|]. eapply feq_trans; [exact P3|apply feq_sym; exact AX].
+  - eapply feq_trans; [apply feq_cj; exact XA|]. eapply feq_trans; [exact P4|apply feq_sym; exact XA]. Qed.
+Theorem pinv_cg_repaired_penrose m n (A Minv : fm) : inv2 n (mmul m (cj A) A) Minv -> Penrose m n A (pinv_cg m n A Minv r0).
+Proof. intros H. apply (penrose_ext m n A (mmul n Minv (cj A))); [apply feq_sym, pinv_cg_no_jitter|apply pinv_normal_equations_penrose; exact H]. Qed.
 End Extra.
